@@ -503,28 +503,27 @@ example :
         MDL.view).toOption = view canonicalSample := by
   decide +kernel
 
-/-- **The same after edits.**  `a` well-formed and canonical, `ρ` any replacement of the unread
-copies that keeps the file header's LOD count (`hlc`); history, side conditions and conclusion as in
-`c07_edit_then_parse_partial`, with the session starting from `encodeMdlR a ρ` instead of
-`encodeMdl a`: for every outcome `mE` of the edit calls that returns, `write_to_buffer mE` returns a
-buffer whose re-parse reports exactly `view a'`, with `mE`'s `file_header` and `model_data`.  Stale
-stored stack / runtime sizes, offsets and buffer sizes in either table are all recomputed by the
-`update_headers` call every edit ends with (seeded change `C07-r7m2`: sizes recomputed only when a
-shape table changed).  The header flags are all ok when moreover the size slots `ρ` stores for the
-LODs **not in use** are 0: `update_headers` never rewrites the file-header slots of unparsed LODs.
+/-- **The same after edits — for every `ρ`.**  `a` well-formed and canonical, `ρ` **any** replacement
+of the unread copies; history, side conditions and conclusion as in `c07_edit_then_parse_partial`,
+with the session starting from `encodeMdlR a ρ` instead of `encodeMdl a`: for every outcome `mE` of
+the edit calls that returns, `write_to_buffer mE` returns a buffer whose re-parse reports exactly
+`view a'`, with `mE`'s `file_header` and `model_data`.  Stale stored stack / runtime sizes, offsets
+and buffer sizes in either table are all recomputed by the `update_headers` call every edit ends
+with (seeded change `C07-r7m2`: sizes recomputed only when a shape table changed); the stored
+file-header LOD count is read by nobody (fix C07-06) and echoed into the written file
+(`m1.fileHeader = mE.fileHeader`, whose `lodCount` is still `ρ`'s).  The header flags are all ok when
+moreover the size slots `ρ` stores for the LODs **not in use** are 0: `update_headers` never rewrites
+the file-header slots of unparsed LODs.
 
-`hlc` is a limitation of the proof route, not of the code: since fix C07-06 no edit operation reads
-`file_header.lod_count` (before, `update_headers` bounded its first loop by it while the reader
-loops over `model_data.header.lod_count`: a stored count below the real one left stale mesh offsets
-behind — the written file re-parsed to other vertices —, a count above 3 panicked; fixed defect
-`file-lod-count`, witnesses `corpus/C07/fx-06-file-lod-count*.case`).  The abstraction relation `Rep`
-of the edit route compares the whole file header up to the recomputed fields, the stored LOD count
-included; histories on files with another stored count are checked by correspondence (`wredun`
-cases with an `flc` perturbation, tag `corr`: the specification's answer is the view of the edited
-model and an unchanged `model_data`).  `_partial` otherwise as `c07_edit_then_parse_partial`. -/
+Before fix C07-06 this needed `ρ.fileLodCount a.lodCount = a.lodCount` and was false without:
+`update_headers` bounded its first loop by `file_header.lod_count` while the reader loops over
+`model_data.header.lod_count` — a stored count below the real one left stale mesh offsets behind
+(the written file re-parsed to other vertices), a count above 3 panicked (fixed defect
+`file-lod-count`, witnesses `corpus/C07/fx-06-file-lod-count*.case`, found while proving this theorem).
+Proof: the abstraction relation `Rep` of the edit route forgets every field `ρ` replaces
+(`rep_initialR`).  `_partial` as `c07_edit_then_parse_partial`. -/
 theorem c07_edit_redundant_partial (a : AbstractModel) (h : WF a = true) (hcan : Canonical a = true)
-    (ρ : Redundant) (hlc : ρ.fileLodCount a.lodCount = a.lodCount)
-    (v0 : View) (hv0 : view a = some v0)
+    (ρ : Redundant) (v0 : View) (hv0 : view a = some v0)
     (es : List AEdit) (hne : es ≠ []) (hes : editsOk2 a es = true)
     (a' : AbstractModel) (ha' : applyEdits a es = some a')
     (ces : List Edit) (hces : cedits a es = some ces)
@@ -539,12 +538,12 @@ theorem c07_edit_redundant_partial (a : AbstractModel) (h : WF a = true) (hcan :
             headerFlags m1.fileHeader buf.length m1.lods = HeaderFlags.allOk) := by
   refine ⟨parsedR a ρ v0, parse_encodeR a h (canonical_noWeightsByte4 a hcan) ρ v0 hv0, fun mE hE => ?_⟩
   obtain ⟨buf, m1, h1, h2, h3, h4, h5, h6⟩ :=
-    edit_then_parseR a h hcan ρ hlc v0 hv0 es hne hes a' ha' ces hces h' hlen' hcan' hne' v hv mE hE
+    edit_then_parseR a h hcan ρ v0 hv0 es hne hes a' ha' ces hces h' hlen' hcan' hne' v hv mE hE
   exact ⟨buf, m1, h1, h2, h5, h3, h4, h6⟩
 
 /-- … and under `editsFit` the edit calls on the model parsed from `encodeMdlR a ρ` return -/
 theorem c07_edit_redundant_total_partial (a : AbstractModel) (h : WF a = true)
-    (hcan : Canonical a = true) (ρ : Redundant) (hlc : ρ.fileLodCount a.lodCount = a.lodCount)
+    (hcan : Canonical a = true) (ρ : Redundant)
     (v0 : View) (hv0 : view a = some v0)
     (es : List AEdit) (hne : es ≠ []) (hes : editsOk2 a es = true) (hfit : editsFit a es = true)
     (a' : AbstractModel) (ha' : applyEdits a es = some a')
@@ -557,27 +556,27 @@ theorem c07_edit_redundant_total_partial (a : AbstractModel) (h : WF a = true)
       m1.fileHeader = mE.fileHeader ∧ m1.modelData = mE.modelData ∧
       (UnusedEmpty a.lodCount.toNat (ρ.fh (fileHeader a)) →
         headerFlags m1.fileHeader buf.length m1.lods = HeaderFlags.allOk) := by
-  obtain ⟨mE, hE⟩ := edits_return_initialR a h hcan ρ hlc v0 hv0 es hes hfit a' ha' ces hces
+  obtain ⟨mE, hE⟩ := edits_return_initialR a h hcan ρ v0 hv0 es hes hfit a' ha' ces hces
   obtain ⟨buf, m1, h1, h2, h3, h4, h5, h6⟩ :=
-    edit_then_parseR a h hcan ρ hlc v0 hv0 es hne hes a' ha' ces hces h' hlen' hcan' hne' v hv mE hE
+    edit_then_parseR a h hcan ρ v0 hv0 es hne hes a' ha' ces hces h' hlen' hcan' hne' v hv mE hE
   exact ⟨parsedR a ρ v0, mE, buf, m1, parse_encodeR a h (canonical_noWeightsByte4 a hcan) ρ v0 hv0,
     hE, h1, h2, h5, h3, h4, h6⟩
 
 /-- stale copies for an edit session on `shapeSample`: every unread `u32` copy of the LOD in use
 `0xDEADBEEF` (stack / runtime size, all LOD-table copies, slot 0 of the file-header arrays), the
-slots of the two unused LODs 0, the file header's LOD count kept -/
+slots of the two unused LODs 0, the file header's LOD count 0 (one LOD is in use) -/
 def staleRedundant : Redundant :=
-  { Redundant.const 0xDEADBEEF 1 with
+  { Redundant.const 0xDEADBEEF 0 with
     vertexOffsets := fun _ => ⟨0xDEADBEEF, 0, 0⟩
     vertexBufferSize := fun _ => ⟨0xDEADBEEF, 0, 0⟩
     indexBufferSize := fun _ => ⟨0xDEADBEEF, 0, 0⟩ }
 
 /-- non-vacuity of `c07_edit_redundant_partial` / `_total_partial`: the hypotheses of
-`c07_edit_then_parse_total_partial` on `shapeSample` / `sampleEdits` (see there), `hlc`, the
-unused-slot condition of the flags, and the edit calls on the model parsed from the perturbed file
+`c07_edit_then_parse_total_partial` on `shapeSample` / `sampleEdits` (see there), the stored
+file-header LOD count differs from the real one, the unused-slot condition of the flags, and the edit calls on the model parsed from the perturbed file
 return -/
 example :
-    staleRedundant.fileLodCount shapeSample.lodCount = shapeSample.lodCount ∧
+    (staleRedundant.fh (fileHeader shapeSample)).lodCount ≠ (fileHeader shapeSample).lodCount ∧
     UnusedEmpty shapeSample.lodCount.toNat (staleRedundant.fh (fileHeader shapeSample)) ∧
     (match view shapeSample, applyEdits shapeSample sampleEdits, cedits shapeSample sampleEdits with
      | some v0, some a', some ces =>
